@@ -91,7 +91,7 @@ func main() {
 	depth, maxTable := 4, 3
 	if rep.Thorough() {
 		depth, maxTable = 5, 4
-		patterns = append(patterns, "/a/b/c/", "/ab/", "/a/b/c")
+		patterns = append(patterns, "/ab/") // (with the bookkeeping in the state key the space grows ~12x per level: depth 5 over 9 patterns is what fits the tier)
 		requestPaths = append(requestPaths, "/a/b/c/", "/ab/c", "/a/b/c/d/e", "/A/b/C/d", "/a/b/cd")
 		alphabet = nil
 		for _, p := range patterns {
